@@ -32,7 +32,7 @@ ANCHORS = ['penman.model:Model.canonicalize_role', 'penman.model:Model._canonica
            'penman.transform:_canonicalize_node']
 PROBES = {'C17': 20}
 MIN_EVAL = {'quick': 5000, 'thorough': 20000}
-REQUIRED_COUNTERS = ['roles', 'trees', 'defined-ending-in-of', 'normalised', 'short_lived_models']
+REQUIRED_COUNTERS = ['roles', 'trees', 'defined-ending-in-of', 'normalised', 'short_lived_models', 'duplicate_branches']
 EXTRA_BASES = [':foo', ':ARG0', ':', ':a-b', ':TOP', ':instance', ':op', ':ARG10', ':x', ':consist-of',
                ':prep-on-behalf-of', ':prep-out-of', ':mod', ':domain', ':\u00e9t\u00e9']
 
@@ -132,6 +132,18 @@ def oracle(ctx, kind, p):
                 out.append((r, t))
             return (v, out)
         node = over(node)
+        if rng.random() < 0.3:
+            # the same branch written twice in one node (value-equal branches, atomic or nested)
+            def dup(nd, depth=0):
+                v, br = nd
+                br = [(r, dup(t, depth + 1) if isinstance(t, tuple) else t) for r, t in br]
+                cand = [k for k, (r, t) in enumerate(br) if r != '/']
+                if cand and rng.random() < (0.7 if depth == 0 else 0.3):
+                    k = rng.choice(cand)
+                    br.insert(rng.choice([k + 1, len(br)]), br[k])
+                    ctx.count('duplicate_branches')
+                return (v, br)
+            node = dup(node)
         ctx.current = ['treecase', {'tree': T.to_json(node), 'model': name}]
         check_tree(ctx, node, name, m, rm)
         del m
